@@ -12,6 +12,8 @@ from fractions import Fraction
 
 import numpy as np
 
+from .. import harness as H
+
 from .. import smooth as S
 from ..oracles import whittaker as W
 
@@ -35,7 +37,7 @@ def kernel():
 
 def gen_case(rng, it, max_days=4000):
     n = int(rng.choice([5, 6, 8, 12, 36, 73, 150, 400]))
-    spacing_kind = ["r5", "r8", "r10", "r16", "irregular"][it % 5]
+    spacing_kind = ["r5", "r8", "r10", "r16", "irregular"][H.pick(it, 1, 5)]
     if spacing_kind == "irregular":
         gaps = rng.integers(1, 25, n)
     else:
@@ -45,13 +47,13 @@ def gen_case(rng, it, max_days=4000):
         gaps = gaps[:n]
     start = int(rng.integers(0, 6))
     pos = start + np.cumsum(gaps) - gaps[0]
-    tail = int(rng.integers(0, 12)) if it % 2 else 0  # last day marked or not
+    tail = int(rng.integers(0, 12)) if H.pick(it, 2, 2) else 0  # last day marked or not
     m = int(pos[-1] + 1 + tail)
     m = max(m, 4)
     template = np.zeros(m)
     template[pos] = 1
     # contiguous labels
-    lk = ["dekad", "pentad", "month", "random"][it % 4]
+    lk = ["dekad", "pentad", "month", "random"][H.pick(it, 3, 4)]
     runs = []
     tot = 0
     while tot < m:
@@ -66,7 +68,7 @@ def gen_case(rng, it, max_days=4000):
         runs.append(r)
         tot += r
     labels = np.repeat(np.arange(len(runs)), runs)[:m].astype(np.int32) + int(rng.integers(0, 1000))
-    ykind = ["noise", "season", "const", "linear", "walk"][it % 5 if it % 7 else 2]
+    ykind = ["noise", "season", "const", "linear", "walk"][H.pick(it, 4, 5) if it % 7 else 2]
     if ykind == "const":
         x = np.full(n, int(rng.integers(-10000, 10001)))
     elif ykind == "linear":
@@ -203,11 +205,11 @@ def shard_accessor(spec, R):
         time = pd.Timestamp("2001-01-01") + pd.to_timedelta(pos, unit="D")
         # the statement knows no placeholder: every int16 observation counts, whatever attributes the cube carries
         # (no attribute / a value that never occurs / a value the series hits once / the value of a whole constant pixel)
-        akind = it % 4
+        akind = H.pick(it, 5, 4)
         attrs = [{}, {"nodata": -3000}, {"nodata": int(cube[0, 0, int(rng.integers(0, n))])}, {"nodata": int(cube[-1, -1, 0]), "scale_factor": 0.0001}][akind]
         R.count(f"accessor_attrs_{['none', 'unused_value', 'value_in_series', 'value_in_series_2'][akind]}")
         da = xr.DataArray(cube, dims=["y", "x", "time"], coords={"time": time}, attrs=attrs)
-        order = [("y", "x", "time"), ("time", "y", "x")][it % 2]
+        order = [("y", "x", "time"), ("time", "y", "x")][H.pick(it, 6, 2)]
         res = da.transpose(*order).hdc.whit.whitint(labels, template)
         nlab = np.unique(labels).size
         R.evaluation()
